@@ -73,28 +73,47 @@ pub(crate) mod verif_f6 {
     f6!(f6_counts3_log5, 3, 5);
     f6!(f6_counts3_log9, 3, 9);
 
-    /// F4 regression: data that only uses ONE symbol (e.g. all literal lengths 0). Everything is concrete per harness (a symbolic
-    /// symbol makes the histogram slice length symbolic and the 256-iteration loops explode): a bounded execution, not a proof
-    pub(crate) fn single_symbol_body<const SYM: u8, const N: usize, const MAXLOG: u8>() {
+    pub(crate) static mut C_CALLS: u32 = 0;
+    pub(crate) static mut C_LEN: usize = 0;
+    pub(crate) static mut C_COUNTS: [usize; 4] = [0; 4];
+    /// contract stub of build_table_from_counts: asserts its precondition - a histogram of AT LEAST TWO symbols (with a single symbol the
+    /// zero-bit-avoidance step has nowhere to move probability to and panics: defect F4) - and records what it got
+    pub(crate) fn stub_from_counts(counts: &[usize], _max_log: u8, _avoid: bool) -> FSETable {
+        unsafe {
+            C_CALLS += 1;
+            C_LEN = counts.len();
+            assert!(counts.len() >= 2, "F6/F4: build_table_from_counts needs a histogram of at least two symbols");
+            let mut i = 0;
+            while i < 4 && i < counts.len() { C_COUNTS[i] = counts[i]; i += 1; }
+        }
+        dummy()
+    }
+
+    /// build_table_from_data: histogram of the data, cut after the largest used symbol but never below two symbols (F4 regression:
+    /// data that only uses symbol 0, e.g. all literal lengths 0). Data is CONCRETE per harness (symbolic data makes the 256-entry
+    /// histogram symbolic and exhausts CBMC): a bounded execution of the real function against the callee's contract stub
+    pub(crate) fn data_body<const SYM: u8, const N: usize>() {
         let data = [SYM; N];
-        unsafe { P_CALLS = 0; }
-        let t = build_table_from_data(data.iter().copied(), MAXLOG, true);
+        unsafe { C_CALLS = 0; }
+        let t = build_table_from_data(data.iter().copied(), 9, true);
         core::mem::forget(t);
         unsafe {
-            assert!(P_CALLS == 1 && P_PROBS[SYM as usize] >= 1, "F6: the single used symbol must be encodable");
+            assert!(C_CALLS == 1 && C_LEN == if SYM < 1 { 2 } else { SYM as usize + 1 }, "F6: the histogram is cut after the largest used symbol, never below two symbols");
+            let mut i = 0;
+            while i < C_LEN { assert!(C_COUNTS[i] == if i == SYM as usize { N } else { 0 }, "F6: histogram counts"); i += 1; }
         }
     }
-    macro_rules! f6s {
-        ($name:ident, $s:expr, $n:expr, $ml:expr) => {
+    macro_rules! f6d {
+        ($name:ident, $s:expr, $n:expr) => {
             #[cfg(kani)]
             #[kani::proof]
             #[kani::unwind(258)]
-            #[kani::stub(super::build_table_from_probabilities, stub_build_from_probs)]
-            fn $name() { single_symbol_body::<$s, $n, $ml>(); }
+            #[kani::stub(super::build_table_from_counts, stub_from_counts)]
+            fn $name() { data_body::<$s, $n>(); }
         };
     }
-    f6s!(f6_single_symbol_0, 0, 3, 9);
-    f6s!(f6_single_symbol_2, 2, 1, 6);
+    f6d!(f6_data_only_symbol0, 0, 3);
+    f6d!(f6_data_only_symbol2, 2, 1);
 }
 //@end
 //@harness f6_counts2_log5 kind=proof fn=fse_encoder::build_table_from_counts props=C12,C16,C02 tier=quick bound="2 symbols, symbolic counts <= 40, max_log 5, zero-bit avoidance on" timeout=1500
@@ -102,5 +121,6 @@ pub(crate) mod verif_f6 {
 //@harness f6_counts3_log5 kind=proof fn=fse_encoder::build_table_from_counts props=C12,C16,C02 tier=quick bound="3 symbols, symbolic counts <= 40, max_log 5, zero-bit avoidance on" timeout=1500
 //@harness f6_counts3_log9 kind=proof fn=fse_encoder::build_table_from_counts props=C12,C16,C02 tier=quick bound="3 symbols, symbolic counts <= 40, max_log 9, zero-bit avoidance on" timeout=1500
 //@assume build_table_from_probabilities (encoder state table construction) is replaced by a recording contract stub in f6_*: F5 (encoder tables equal decoder tables) is not built
-//@harness f6_single_symbol_0 kind=proof fn=fse_encoder::build_table_from_data,fse_encoder::build_table_from_counts props=C16,C12 tier=quick bound="CONCRETE: 3 data symbols all 0, max_log 9 (the F4 regression input); a bounded execution" timeout=1200
-//@harness f6_single_symbol_2 kind=proof fn=fse_encoder::build_table_from_data,fse_encoder::build_table_from_counts props=C16,C12 tier=quick bound="CONCRETE: 1 data symbol 2, max_log 6; a bounded execution" timeout=1200
+//@assume in f6_data_* build_table_from_counts is a contract stub (precondition: at least two symbols, F4); its own obligations are f6_counts*
+//@harness f6_data_only_symbol0 kind=proof fn=fse_encoder::build_table_from_data props=C16,C12 tier=quick bound="CONCRETE data: three symbols 0 (the F4 regression input); callee build_table_from_counts is a contract stub asserting its precondition (>= 2 symbols)" timeout=1500
+//@harness f6_data_only_symbol2 kind=proof fn=fse_encoder::build_table_from_data props=C16,C12 tier=quick bound="CONCRETE data: one symbol 2; callee is a contract stub" timeout=1500
